@@ -162,11 +162,7 @@ where
                 if frames_in > frames {
                     frames_in = frames;
                 }
-                if frames_in > 0 {
-                    ch_padded[..frames_in].copy_from_slice(&ch_input.as_ref()[..frames_in]);
-                } else {
-                    ch_padded.clear();
-                }
+                ch_padded[..frames_in].copy_from_slice(&ch_input.as_ref()[..frames_in]);
             }
         }
         self.process_into_buffer(&wave_in_padded, wave_out, active_channels_mask)
